@@ -34,6 +34,7 @@ LEVEL_TEXT = (
     'functions; plus path rules (every op-loop iteration files exactly one '
     'result, unknown and no_quantize ops take the all-NO_QUANTIZE path). Does '
     'not decide per-operand dtypes on concrete graphs.'
+    ' Simulations over listed lattices: plan generation (one entry per operand occurrence), constant carries its data, and the whole pipeline calibrate -> plan -> instructions -> rewrite on three label graphs x rule lists with the property text as oracle (operand dtypes per operator mode).'
 )
 LEVEL_NOTE = (
     'Trusted: the specification table in rules/c03.py (O8), the sa path '
@@ -41,7 +42,7 @@ LEVEL_NOTE = (
     '_split_tensors_by_indices is only covered structurally (DESIGN.md '
     'section 8, blind spots).'
 )
-TECHNIQUE = 'decision-table extraction by path enumeration + CFG path rules + def-use origin checks (static)'
+TECHNIQUE = 'decision-table extraction by path enumeration + CFG path rules + def-use origin checks + abstract interpretation of the repository functions over a finite lattice (label-model simulations compared with an independent expectation), incl. the whole pipeline with the property text as oracle (static)'
 
 MMU = shared.MMU
 NMM = shared.NMM
